@@ -91,7 +91,7 @@ def run(chk):
                   cause=sc['cause'], start=sc['pool']['start_method'], keep_alive=bool(sc['pool'].get('keep_alive')),
                   outcome=str([x.get('outcome') for x in o.get('ops', [])][-1:]))
         case = {'scenario': sc}
-        if sc['cause'] == 'sigint' and str((o.get('injected') or {}).get('site', '')).startswith('pool:__exit__'):
+        if sc['cause'] == 'sigint' and o.get('ops') and (o.get('injected') or {}).get('point', 0) > (o['ops'][-1].get('main_points_end') or 10 ** 9):
             continue      # the interrupt arrived after the call, while the with-block was being left: not an exit cause of a call
         if o.get('stuck'):
             chk.violation('exit_path_terminates', case, o['stuck'], 'every exit path ends', input_class='exit_hang_' + sc['cause'])
